@@ -93,11 +93,12 @@ where
 
     fn start_send(mut self: Pin<&mut Self>, item: Item) -> Result<(), Self::Error> {
         let mut idx = 0;
-        let len = self.entries.len();
-        while idx < len {
+        // The length shrinks whenever a broken sink is evicted below
+        while idx < self.entries.len() {
+            let last = idx == self.entries.len() - 1;
             let (_, sink) = self.entries[idx].borrow_mut();
             pin!(sink);
-            if idx == len - 1 {
+            if last {
                 if let Err(e) = sink.start_send(item) {
                     error!("Evicting broken sink from FanoutMany::start_send with err: {e:?}");
                     self.entries.swap_remove(idx);
